@@ -104,6 +104,11 @@ def request : P String := do
       match (postorder e).findSome? (replacePhysRaises dim physIn) with
       | some err => pure err
       | none => pure (showExpr (replacePhysAll dim physIn e))
+  | "rphysST" => do
+      let dim ← nat; let physIn ← list tok; let e ← pExpr
+      match (postorder e).findSome? (replacePhysRaisesST dim physIn) with
+      | some err => pure err
+      | none => pure (showExpr (replacePhysAllST dim physIn e))
   | "vec" => do let bfs ← list pBFun; let e ← pExpr; pure (showExpr (substVec bfs e))
   | "keys" => do
       let t ← pKeyTable; let roots ← list pExpr
